@@ -89,7 +89,7 @@ def build_harness(variant, name):
     if os.path.exists(cfg):
         headers.append(cfg)
     extra = {
-        "h_conv": ["ref_conv.c", "ref_g711.c", "ref_adpcm.c"],
+        "h_conv": ["ref_conv.c", "ref_g711.c", "ref_adpcm.c", "h_c20.c"],
         "h_rdwr": [],
     }.get(name, [])
     srcs = COMMON_SRC + extra + [name + ".c"]
